@@ -270,9 +270,9 @@ Theorem norm_wf_idem v : forall inc, wf_value inc v = true -> wf_value inc (norm
 Proof.
   induction v using value_ind'; intros inc Hw; try (split; [exact Hw | reflexivity]).
   - (* np scalar *) destruct n; split; reflexivity.
-  - (* rng *) cbn [wf_value] in Hw. apply andb_true_iff in Hw. destruct Hw as [Hc Hm].
+  - (* rng *) cbn [wf_value] in Hw. rename Hw into Hm.
     assert (Hb : canon_bitgen bg = bg) by (unfold canon_bitgen; rewrite Hm; reflexivity).
-    cbn [norm]. rewrite !Hb. cbn [wf_value]. rewrite Hc, Hm. split; reflexivity.
+    cbn [norm]. rewrite !Hb. cbn [wf_value]. rewrite Hm. split; reflexivity.
   - cbn [wf_value norm] in *. apply andb_true_iff in Hw. destruct Hw as [H1 H2]. rewrite forallb_forall in H1. rewrite Forall_forall in H.
     destruct (seq_norm_facts l) as (F1 & F2 & F3); [|exact H2|].
     + intros v Hv. split; [exact (H1 v Hv) | exact (H v Hv true (H1 v Hv))].
